@@ -2,7 +2,7 @@
 import re
 
 from .lib import PLUMBING, operand_local, root_fn
-from .lib_c08 import ChainOps, Flow, Origins, controllers, field_writes, gen_role
+from .lib_c08 import ChainOps, Flow, Origins, controllers, field_writes, gen_role, map_stores, root_of
 
 LEVEL = "other"
 TECHNIQUE = ("static analysis: field-sensitive interprocedural source->sink mapping of the converter extracted from MIR and compared with a frozen table; "
@@ -81,7 +81,8 @@ MAPPING = [
 # constant-valued flags: sink -> (controlling source fields, string keys on the predicate, literal values written)
 FLAGS = {
     "SchemaData.nullable": ("SchemaObject.extensions SchemaObject.reference", ["nullable"], [True],
-                            "extensions[\"nullable\"] == true -> nullable (only reached when the schema is not a bare $ref)"),
+                            "extensions[\"nullable\"] == true -> nullable (only reached when the schema is not a bare $ref); `if test { nullable = true }` over the "
+                            "default false, or `nullable = test` (both constants)"),
     "IntegerType.exclusive_minimum": ("SchemaObject.number NumberValidation.minimum NumberValidation.exclusive_minimum", [], [False, True], "which of minimum / exclusiveMinimum is present"),
     "IntegerType.exclusive_maximum": ("SchemaObject.number NumberValidation.maximum NumberValidation.exclusive_maximum", [], [False, True], "which of maximum / exclusiveMaximum is present"),
     "NumberType.exclusive_minimum": ("SchemaObject.number NumberValidation.minimum NumberValidation.exclusive_minimum", [], [False, True], "which of minimum / exclusiveMinimum is present"),
@@ -182,7 +183,10 @@ def _src(fields):
 
 
 def _fname(ds, f):
-    return f.id.split("::", 1)[-1] if f.id.startswith("schema_util::") else f.id
+    """Keys name the enclosing *named* function (closure numbers shift when code is edited; writes inside an
+    extracted helper are seen in the caller because unknown helpers are inlined)."""
+    r = root_of(ds, f)
+    return r.id.split("::", 1)[-1] if r.id.startswith("schema_util::") else r.id
 
 
 class _Model:
@@ -269,7 +273,9 @@ def r1_mapping(ctx):
             oc = s["oc"]
             ctrl = _src(oc.fields) if oc else frozenset()
             consumed |= ctrl
-            ok = ctrl == _set(ctrl_exp) and all(k in (oc.lits if oc else ()) for k in keys) and sorted(o.bool_lits) == sorted(vals)
+            # a flag that defaults to false may be written only on the true side (`if p { f = true }`) or on both (`f = p` lowered to two constants)
+            vals_ok = sorted(o.bool_lits) == sorted(vals) or (vals == [True] and sorted(o.bool_lits) == [False, True])
+            ok = ctrl == _set(ctrl_exp) and all(k in (oc.lits if oc else ()) for k in keys) and vals_ok
             ctx.check(R, "flag:%s:%s" % (fn, sink), ok,
                       "%s is written with constant(s) %s under predicates over {%s}%s; table: constants %s under {%s}%s (%s)" % (
                           sink, sorted(o.bool_lits), ", ".join(sorted(ctrl)), (" keys %s" % sorted(oc.lits)) if oc and oc.lits else "", vals,
@@ -484,7 +490,7 @@ def r3_single_entry(ctx):
             if bb not in live:
                 continue
             n += 1
-            owner = root_fn(ds, f).id
+            owner = root_of(ds, f).id
             ok = owner in SCHEMA_BUILDERS
             detail = "openapiv3::Schema constructed in %s: %s" % (owner, SCHEMA_BUILDERS.get(owner, "NOT a reviewed construction site — a schema that bypasses the converter"))
             if ok and owner != ENTRY_OBJ:
@@ -517,16 +523,7 @@ def r3_single_entry(ctx):
                 placed += 1
                 _placed(ctx, R, fl, f, bb, slot[0], slot[1])
         # components.schemas[..] = v : `map.insert(k, v)` or `map.entry(k).or_insert(v)` / `.or_insert_with(|| v)`
-        stores = []
-        for bb, t in f.live_calls(r"indexmap::IndexMap::<K, V, S>::insert$"):
-            if len(t["args"]) >= 3 and ("openapiv3::Components", "schemas") in fl.origins(f, t["args"][0]).fields:
-                stores.append((bb, t["args"][2]))
-        for bb, t in f.live_calls(r"indexmap::map::Entry::<'a, K, V>::(or_insert|or_insert_with|or_insert_with_key|insert_entry)$"):
-            if len(t["args"]) < 2:
-                continue
-            eo = fl.origins(f, t["args"][0])
-            if ("openapiv3::Components", "schemas") in eo.fields and any(c.endswith("IndexMap::<K, V, S>::entry") for c in eo.calls):
-                stores.append((bb, t["args"][1]))
+        stores = [(bb, vop) for bb, kop, vop in map_stores(fl, f, ("openapiv3::Components", "schemas"))]
         for bb, vop in stores:
             placed += 1
             vo = fl.origins(f, vop)
@@ -614,18 +611,16 @@ def r4_tables(ctx):
             lit_sides = [(a, l) for a, l in sides if len(l) == 1]
             if len(lit_sides) != 1:
                 continue
-            sw = [(sbb, st) for sbb, st in g.switches() if operand_local(st["discr"]) == t["dest"]["l"]]
-            if len(sw) != 1:
-                continue
-            tb, fb = g.bool_edges(sw[0][0])
             other = [a for a, l in sides if a is not lit_sides[0][0]]
-            tests.append((sorted(lit_sides[0][1])[0], sw[0][0], tb, other[0] if other else None, bb))
+            tests.append((sorted(lit_sides[0][1])[0], other[0] if other else None, bb))
         for bb, i, st in g.aggregates(r"^openapiv3::VariantOrUnknownOrEmpty$", "Item"):
             if bb not in live:
                 continue
             o = m.flow.origins(g, st["rv"]["ops"][0])
             fmts = sorted((a[0].split("::")[-1], a[1]) for a in o.aggs if a[0].startswith("openapiv3::") and a[0].endswith("Format"))
-            doms = [(lit, sbb, oth) for lit, sbb, tb, oth, cbb in tests if tb is not None and g.edge_dominates(sbb, tb, bb)]
+            # path facts: the string tests known TRUE on every path to this site (match arm, `if f == ".."`, guard, named flag alike)
+            states = g.bool_states_at(bb)
+            doms = [(lit, cbb, oth) for lit, oth, cbb in tests if states and all(fs.get(("call", cbb)) is True for fs in states)]
             if len(doms) != 1 or len(fmts) != 1:
                 ctx.check(R, "format-site:%s:%s" % (_fname(m.ds, g), fmts), False, "typed format %s is selected by %d string tests (expected exactly one)" % (fmts, len(doms)), (g, bb))
                 continue
